@@ -369,6 +369,11 @@ func (C11Iso) Init(env world.Env) mc.Model {
 	mustOK(env.Deliver(storagetypes.NewMsgBuyStorage(o, o, 30, 1_000_000_000, "ujkl")), "plan")
 	start := env.Ctx().BlockHeight()
 	mustOK(env.Deliver(storagetypes.NewMsgPostFile(o, c01F1.merkle, 12, 0, 0, 1, "{}")), "file")
+	// a prover holds O's file: its proof record (keyed by prover, content, owner O and start) is part of O's deal
+	item, hl := c01F1.proofFor(0)
+	if ok, e := postProofOK(w, env.Deliver(storagetypes.NewMsgPostProof(x, c01F1.merkle, o, start, item, hl, 0))); !ok {
+		panic("seed proof: " + e)
+	}
 	return c11Model{Start: start, NotifT: t}
 }
 
@@ -389,6 +394,7 @@ func (C11Iso) Events(env world.Env, mm mc.Model) []string {
 		evs = append(evs, fmt.Sprintf("CreateFeedVariant:N:%d", i), fmt.Sprintf("UpdateFeedVariant:N:%d", i))
 	}
 	evs = append(evs, "DeleteNotifVariant:N:0", "DeleteNotifVariant:N:1", "DeleteNotifVariant:N:2", "DeleteFileVariant:N")
+	evs = append(evs, "PostSameFile:N") // N posts the same content as O (in O's posting block: same content and start, other owner)
 	if mm.(c11Model).Blocks < 1 {
 		evs = append(evs, "NextBlock")
 	}
@@ -477,6 +483,10 @@ func (C11Iso) Apply(env world.Env, mm mc.Model, ev string) mc.Step {
 		msg = mp
 	case "DeleteFile":
 		msg = storagetypes.NewMsgDeleteFile(who, c01F1.merkle, m.Start)
+	case "PostSameFile":
+		pm := storagetypes.NewMsgPostFile(who, append([]byte{}, c01F1.merkle...), 12, 0, 0, 1, "{}")
+		pm.Expires = env.Ctx().BlockHeight() + 20_000 // paid up front: N needs no plan
+		msg = pm
 	case "CreateFeedVariant":
 		var i int
 		fmt.Sscan(p[2], &i)
